@@ -23,7 +23,8 @@ FAMILIES = vals.FAMILIES + ["two-field", "three-field", "long-key"]
 OFFSETS = [0, 10**6, 10**9, 2**31]
 SALTS = [None, "", "a", "b", "exp_2024", "Checkout-Button", "checkout-button", " checkout-button"]
 VECTORS = {"11": ["1", "1"], "123": ["1", "2", "3"], "19": ["1", "9"], "hh": ["0.5", "0.5"], "ten": ["1"] * 10,
-           "eight125": ["12.5"] * 8, "six1666": ["16.66", "16.67"] * 3}
+           "eight125": ["12.5"] * 8, "six1666": ["16.66", "16.67"] * 3,
+           "z10": ["1", "0"], "z901": ["9", "0", "1"], "z0": ["0", "3", "0.0", "1"]}  # a switched-off arm serves nobody
 
 
 def population(fam, off, m):
@@ -43,7 +44,9 @@ def fields(fam):
 def build_for(fam, salt, vname):
     v = VECTORS[vname]
     ast = ("prog", "e", salt, fields(fam), ("ret", tuple((f"g{i}", w) for i, w in enumerate(v))))
-    text = rp.render(ast)
+    # (one salt of every sweep is written as ONE line with a block comment between all tokens: the statistics of a program do
+    # not depend on how its source is laid out)
+    text = rp.render(ast, sep=" /* c */ ") if salt == "a" else rp.render(ast)
     return text, impl.build(text)
 
 
@@ -78,8 +81,13 @@ def _work(units):
                     continue
                 results[salt] = a
                 counts = [a.count(i) for i in range(len(v))]
-                x2 = sum((c - m * w / T) ** 2 / (m * w / T) for c, w in zip(counts, v))
-                p = chi2.sf(x2, len(v) - 1)
+                dead = [i for i, (c, w) in enumerate(zip(counts, v)) if w == 0 and c]
+                if dead:
+                    acc.violation({"kind": "stat:gof", "case": case, "text": text, "observed": {"counts": counts},
+                                   "why": f"group #{dead[0]} is declared with weight 0 and was assigned {counts[dead[0]]} of {m} units"})  # fmt: skip
+                    continue
+                x2 = sum((c - m * w / T) ** 2 / (m * w / T) for c, w in zip(counts, v) if w > 0)
+                p = chi2.sf(x2, sum(1 for w in v if w > 0) - 1) if sum(1 for w in v if w > 0) > 1 else 1.0
                 acc.add("gof_tests")
                 if sum(1 for c in counts if c) >= 2:
                     acc.outcomes.add((fam, off, str(salt), vname))
@@ -189,7 +197,7 @@ def run(res, tier):
     hostile_runs(res, "mc.checks.c04", "_work", [["int", 0, ["eight125", "six1666"], [None], 150000], ["uuid", 0, ["123", "hh"], [None, "a"], 20000]])
     if tier == "quick":
         m = 20000
-        units = [(f, o, ["11", "123", "ten", "hh"], [None, "a", "exp_2024", "Checkout-Button", "checkout-button"], m) for f in FAMILIES for o in (0, 10**9)]
+        units = [(f, o, ["11", "123", "ten", "hh", "z901", "z10"], [None, "a", "exp_2024", "Checkout-Button", "checkout-button"], m) for f in FAMILIES for o in (0, 10**9)]
     else:
         m = 200000
         units = [(f, o, list(VECTORS), SALTS, m) for f in FAMILIES for o in OFFSETS]
